@@ -249,7 +249,7 @@ def gen_case(S, tier):
             i = ref.param_names.index(nm)
             lo, hi = box[i]
             th = theta[i]
-            logscale = rng.random() < 0.25
+            logscale = rng.random() < 0.35
             d = rng.choice(["unif", "unif", "gamma", "norm"])
             if logscale:
                 # prior on log10 of the value; narrow so that kernels propose outside the support
@@ -267,16 +267,35 @@ def gen_case(S, tier):
             else:
                 parameters.append({"name": nm, "dist": "norm", "pars": [th, round(th * rng.choice([0.05, 0.1, 0.2]), 5)]})
         constraint = None
-        if rng.random() < 0.3 and ref.n >= 2:
+        if rng.random() < 0.45 and ref.n >= 2:
             snm = rng.choice(ref.state_names)
             base = x0[ref.state_names.index(snm)]
             if base > 0:
-                parameters.append({"name": snm, "dist": "unif", "pars": [round(base * 0.7, 6), round(base * 1.3, 6)]})
+                if rng.random() < 0.3:
+                    # the initial state itself on the log10 scale
+                    parameters.append({"name": snm, "dist": "unif", "logscale": True,
+                                       "pars": [round(np.log10(base * 0.7), 6), round(np.log10(base * 1.3), 6)]})
+                else:
+                    parameters.append({"name": snm, "dist": "unif", "pars": [round(base * 0.7, 6), round(base * 1.3, 6)]})
                 if rng.random() < 0.4:
                     others = [s for s in ref.state_names if s != snm]
                     constraint = [float(sum(x0)), rng.choice(others)]
-        if rng.random() < 0.5:
-            rng.shuffle(parameters)
+        if rng.random() < (0.75 if len(parameters) > len(inferred) else 0.5):
+            rng.shuffle(parameters)             # e.g. an initial state listed before or between the rate parameters
+        flags = [bool(s_.get("logscale")) for s_ in parameters]
+        if len(parameters) >= 2 and len(set(flags)) == 1 and rng.random() < 0.6:
+            # asymmetric by construction (so that an index slip between the user's order and the loss object's
+            # order cannot cancel): put one uniform-prior quantity on the other scale
+            cand = [s_ for s_ in parameters if s_["dist"] == "unif" and (s_.get("logscale") or s_["pars"][0] > 0)]
+            if cand:
+                s_ = rng.choice(cand)
+                a_, b_ = s_["pars"]
+                if s_.get("logscale"):
+                    s_["pars"] = [round(10.0 ** a_, 6), round(10.0 ** b_, 6)]
+                    s_.pop("logscale")
+                else:
+                    s_["pars"] = [round(float(np.log10(a_)), 6), round(float(np.log10(b_)), 6)]
+                    s_["logscale"] = True
         case = {"engine": "abc", "problem": name, "model": model, "theta": theta, "x0": x0, "t0": t0, "loss": loss,
                 "parameters": parameters, "constraint": constraint, "seed": rng.randrange(2 ** 32),
                 "env": {"I": S("faults").choice(["native", "native", "fresh", "reuse"])}}
@@ -304,6 +323,10 @@ def gen_case(S, tier):
         costs.sort()
         q0 = rng.choice([0.5, 0.7, 0.85])
         tol0 = float(costs[int(len(costs) * q0)]) * 1.0001 + 1e-12
+        if rng.random() < 0.3:
+            # a wide-open first generation: (nearly) every prior draw is accepted, so every stored distance of
+            # generation 0 is the cost of an unfiltered draw
+            tol0 = float(costs[-1]) * 3.0 + 1e-12
         N = rng.choice([20, 25, 30, 40, 60])
         ops = []
         nops = rng.choice([1, 2, 2, 3])
